@@ -8,7 +8,7 @@
     observers see.
 """
 import itertools
-from . import common, store, storecheck, oracles
+from . import common, store, storecheck, oracles, crossworld
 
 KINDS = [('single', 'attr'), ('single', 'ref'), ('list', 'attr'), ('list', 'ref'), ('set', 'attr'), ('set', 'ref')]
 _mm = {}
@@ -254,6 +254,7 @@ def run(ctx):
     ctx.exhaustive = True
     slot_level(ctx)
     history_level(ctx)
+    crossworld.notification_pass(ctx)
     ctx.assumptions += ['set.discard() is not in the property\'s operation list and bypasses notification (not judged)',
                         'notifications that report no change (SET old==new, ADD of a present element of a set) are not violations',
                         'order between different (notifier, feature) pairs is not compared']
